@@ -57,6 +57,49 @@ CACHE_TB = [
     "exercises it), Go map semantics as association lists",
 ]
 
+TREE_ACTIONS = ("scenario", "srv", "start", "release", "relist", "attach", "refilter", "close", "closeroot", "cancel",
+                "stall", "unstall", "burst-begin", "burst-end", "end")
+FSUB_KINDS = ("subf", "subd", "clonef", "cloned")
+
+
+def tree_cls(tags, kinds):
+    """classify a tree-engine answer for one property: rejects carrying one of `tags` are violations of it;
+    other rejects/diffs count as a broken correspondence only when they concern a node kind the property's
+    theorems talk about; anything else is not this property's business"""
+    def cls(inp, ans):
+        m = re.match(r"(reject|diff) (\S+)", ans)
+        tagset = set(m.group(2).split("/")) if m and m.group(1) == "reject" else set()
+        if tagset & set(tags):
+            return "reject"
+        km = re.search(r"(root|subf|subd|clonef|cloned|clone|sub|mon|monitor) node", ans) or re.search(r"(monitor) \d", ans)
+        kind = km.group(1) if km else ""
+        kind = "mon" if kind == "monitor" else kind
+        if kinds is None or kind in kinds or kind == "":
+            return "diff"
+        return "ignore"
+    return cls
+
+
+def tree_nontrivial(line):
+    return line.startswith("(obs") and ("(create (obj" in line or "(update (obj" in line or "(delete (obj" in line) \
+        or (line.startswith("(monobs") and "(obj" in line)
+
+
+def tree_engine(mode, tags, kinds, nq, nt):
+    return {"go": "tree", "bin": "kconc", "driver": "tree", "actions": TREE_ACTIONS,
+            "args_quick": ["-mode", mode, "-n", str(nq)], "args_thorough": ["-mode", mode, "-n", str(nt)],
+            "classify": tree_cls(tags, kinds), "nontrivial": tree_nontrivial, "resets": ["scenario"]}
+
+
+TREE_TB = [
+    "tree model KcacheModel/Sys.lean (built from the component models Cache, FSub, bounded queues) written by hand; tied to "
+    "controller.go, publisher.go, subscription.go, subscription_filter.go, monitor.go by the tree engine: the real objects run in a "
+    "testing/synctest bubble (go1.26.8) against a fake API server, every node's Ready/Done/Cache().List()/Events() is compared with "
+    "the model at every quiescent point (stepwise), and after bursts on the schedule-independent observables",
+    "modelled, not verified: Go channel/select semantics, boz/go-lifecycle, the Go scheduler (interleavings are sampled: "
+    "synctest scheduling + virtual-time sleeps injected at the library's log calls), testing/synctest itself",
+]
+
 PROPS = {
     "C17": {
         "engines": [{"go": "filterdiff", "driver": "filter",
@@ -109,5 +152,33 @@ PROPS = {
                 "content after it; no event when nothing changed. Non-trivial: the op emitted events.",
         "trusted_base": CACHE_TB,
         "assumptions": ["filters are pure functions of the object"],
+    },
+    "C06": {
+        "engines": [tree_engine("step,burst,burst", ("C06", "C02"), FSUB_KINDS, 1200, 20000)],
+        "rule": "tree engine, modes step+burst: random trees (<= 9 nodes, depth <= 4) of all six constructors + monitors under a real "
+                "controller; server creates/updates/deletes moving objects in and out of a 9-filter family, relists, Refilter sequences "
+                "(back to earlier, equal-by-construction, FN) also inside bursts with events in flight, Close. At every quiescent point "
+                "each ready filtered node's cache must equal its current filter applied to its parent's observed cache, and its drained "
+                "events must replay from its previous content to its current one. Non-trivial: an observation that carried events.",
+        "trusted_base": TREE_TB,
+        "assumptions": ["no event buffer overflows (<= EventBufsiz/4 events in flight)", "filters are pure"],
+    },
+    "C07": {
+        "engines": [tree_engine("c07", ("C07",), FSUB_KINDS, 1296, 12000), tree_engine("step", ("C07",), FSUB_KINDS, 300, 6000)],
+        "rule": "tree engine mode c07: EXHAUSTIVE over 16 parent contents (subsets of 4 objects) x ordered pairs of the 9-filter family "
+                "(equal by construction, overlapping, disjoint, Null, All, FN) (thorough: plus triples), for SubscribeWithFilter, "
+                "CloneWithFilter(+subscriber) and SubscribeForFilter; each Refilter at quiescence; the drained events must be exactly one "
+                "Delete per cached object the new filter rejects and one Create per parent object newly accepted. Plus random stepwise trees.",
+        "trusted_base": TREE_TB,
+        "assumptions": ["no parent events in flight at the Refilter (stepwise regime)"],
+    },
+    "C08": {
+        "engines": [tree_engine("step,step,burst", ("C08", "C06"), FSUB_KINDS + ("root", "sub", "clone", "mon"), 1200, 20000)],
+        "rule": "tree engine: half of the scenarios hold the first list (gate) and attach / Refilter(equal) / Refilter(new) / server "
+                "changes before releasing it, in random orders, immediate and deferred variants at every depth; Events() is drained "
+                "before Ready() is looked at; a node observed ready must already hold its filtered parent content; a deferred node "
+                "without a supplied filter must not be ready. Non-trivial: an observation that carried events.",
+        "trusted_base": TREE_TB,
+        "assumptions": ["observations are taken at quiescence; 'before Ready' is judged on what Events() delivered up to that point"],
     },
 }
